@@ -4,7 +4,6 @@ import (
 	"fmt"
 	"sort"
 	"strings"
-	"testing/synctest"
 	"time"
 
 	"verif/harness/hlref"
@@ -55,7 +54,7 @@ func (w *World) Transfer(remote string, ref []byte, declared int, payload []byte
 
 func settleFake(d time.Duration) {
 	time.Sleep(d)
-	synctest.Wait()
+	Quiesce()
 }
 
 // ---------------------------------------------------------------------------------------
